@@ -36,3 +36,22 @@ Proof.
   destruct (R_step ld root levels bstore W p st o HR Ha) as (st' & r & E & _ & _ & Hl). eauto.
 Qed.
 Print Assumptions C16_loads.
+
+(* ================= on files produced by the writer =================
+   the number of block loads of ANY admissible history of n operations on a fresh cursor over a
+   written file is at most n * 2 * (index_levels + 2), independent of the number of entries *)
+From Grenad.model Require Import Trailer Writer Reader Spec.
+From Grenad.proofs Require Import ReaderRefine WriterStore.
+
+Theorem C16_written_file_loads : forall compress decompress c,
+  (forall b z, compress (wc_codec c) (wc_level c) b = Done z -> decompress (wc_codec c) z = Done b) ->
+  forall es i s lg m, wc_levels c < 256 -> 1 <= wc_interval c ->
+  w_run_gen vsink vs_wr vs_fl vs_count compress c vs_empty es = (i, Done (s, lg, m)) ->
+  es <> [] -> sorted_strictb (map fst es) = true ->
+  len (vs_bytes s) < 2^64 -> mem_ok lg ->
+  forall ops, adm_ops es Fresh ops ->
+  exists st rs, run_ops (load_block decompress (vs_bytes s) (m_codec m)) (m_root m) (m_levels m) cs_fresh ops = Done (st, rs) /\
+    Forall2 res_ok (snd (aspec_ops es Fresh ops)) rs /\
+    cs_loads st <= N.of_nat (length ops) * (2 * (m_levels m + 2)).
+Proof. exact written_file_history. Qed.
+Print Assumptions C16_written_file_loads.
